@@ -94,6 +94,7 @@ func openDir(path string) (*os.File, error) { return os.Open(path) }
 // in order to guarantee the file is visible (if the system crashes). (See the man page for fsync,
 // or see https://github.com/coreos/etcd/issues/6368 for an example.)
 func syncDir(dir string) error {
+	y.VerifFile("syncdir", dir)
 	f, err := openDir(dir)
 	if err != nil {
 		return y.Wrapf(err, "While opening directory: %s.", dir)
